@@ -1,11 +1,938 @@
-//! (stub) binding for this area — see DESIGN.md
-use crate::util::Args;
-use anyhow::Result;
+//! Binding of spec/Reader.tla (C08) to ragc_core::Decompressor.
+//!
+//!  reader-build   generate a collection (crate::gen, kind manysamples => several metadata batches) with a few
+//!                 short / orphan contigs added (raw groups), and create the archive with the CLI's call sequence
+//!  reader-info    the archive abstraction the specification is parameterised with (batches, contigs, groups of
+//!                 every contig, kind of every reference part) -- catalogue from a fresh handle, reference part
+//!                 metadata and batch count from the independent lexer (crate::lex)
+//!  replay-reader  REPLAY: every behaviour printed by MC_Reader (sequences over the abstract alphabet) is mapped to
+//!                 concrete names of the real archive and executed on ONE real handle; after every call the class
+//!                 (ok / err / panic) is compared with the model's and the digest of the answer with that of the
+//!                 same call on a FRESH handle (table computed once)
+//!  trace-reader   TRACE: random call sequences run concurrently on clone_for_thread handles; every call is one
+//!                 event (thread, op, class, digest) validated by Trace_Reader against the stateless table in the
+//!                 header record
+//! The harness only maps names, drives the real API and digests answers; a panic is data (util::catch).
+use crate::archive::{create_like_cli, CreateOpts};
+use crate::gen;
+use crate::lex;
+use crate::util::{self, Args};
+use anyhow::{anyhow, bail, Result};
+use ragc_common::SegmentDesc;
+use ragc_core::{Decompressor, DecompressorConfig};
+use rand::rngs::StdRng;
+use rand::seq::SliceRandom;
+use rand::Rng;
+use rayon::prelude::*;
+use serde_json::{json, Map, Value};
+use std::collections::{BTreeMap, BTreeSet};
+use std::io::{BufRead, Write};
+use std::panic::AssertUnwindSafe;
+use std::sync::{Arc, Barrier, Mutex};
 
-/// Returns None when `cmd` is not one of this module's sub-commands.
 pub fn dispatch(cmd: &str, a: &Args) -> Option<Result<()>> {
-    let _ = a;
     match cmd {
+        "reader-build" => Some(cmd_build(a)),
+        "reader-info" => Some(cmd_info(a)),
+        "replay-reader" => Some(cmd_replay(a)),
+        "trace-reader" => Some(cmd_trace(a)),
         _ => None,
     }
+}
+
+const PACK: usize = 50; // samples per metadata batch (format constant)
+const NO_RAW_GROUPS: u32 = 16;
+
+fn open(agc: &str) -> Result<Decompressor> {
+    Decompressor::open(agc, DecompressorConfig { verbosity: 0 })
+}
+
+// ------------------------------------------------------------------------------------------------
+// building archives
+// ------------------------------------------------------------------------------------------------
+fn cmd_build(a: &Args) -> Result<()> {
+    util::install_panic_hook();
+    let seed = a.num("seed", 1u64);
+    let dir = a.get("dir")?.to_string();
+    let o = gen::GenOpts {
+        seed,
+        kind: "manysamples".to_string(),
+        n_samples: a.num("samples", 60usize),
+        n_chrom: a.num("chroms", 2usize),
+        chrom_len: a.num("len", 300usize),
+        pansn: false,
+    };
+    let k = a.num("k", 9usize);
+    let mut samples = gen::generate(&o);
+    let mut r = util::rng(seed ^ 0xC08);
+    // sample i is named q<i mod 10>_<i>: a prefix "q<d>_" matches few samples, some in every batch
+    let n = samples.len();
+    for (i, s) in samples.iter_mut().enumerate() {
+        s.name = format!("q{}_{:03}", i % 10, i);
+    }
+    // raw groups: contigs shorter than k and contigs without any splitter of the reference, in about a third of
+    // the samples (at least two per batch), never in the reference sample
+    let mut extra: BTreeSet<usize> = BTreeSet::new();
+    for b in 0..((n + PACK - 1) / PACK) {
+        let lo = (b * PACK).max(1);
+        let hi = ((b + 1) * PACK).min(n);
+        for i in lo..hi {
+            if r.gen_bool(0.35) {
+                extra.insert(i);
+            }
+        }
+        for _ in 0..2 {
+            extra.insert(r.gen_range(lo..hi));
+        }
+    }
+    for &i in &extra {
+        let s = &mut samples[i];
+        for (j, l) in [1usize, k.saturating_sub(2).max(2), k + 3].iter().enumerate() {
+            s.contigs.push(gen::Contig { name: format!("xs{}", j + 1), seq: (0..*l).map(|_| r.gen_range(0..4u8)).collect() });
+        }
+        let l = 150 + r.gen_range(0..120usize);
+        s.contigs.push(gen::Contig { name: "xo1".to_string(), seq: (0..l).map(|_| r.gen_range(0..4u8)).collect() });
+    }
+    let files = gen::write_files(&dir, &samples, false, &gen::Present::default(), seed)?;
+    let out = format!("{}/a.agc", dir);
+    let co = CreateOpts {
+        files,
+        out: out.clone(),
+        k,
+        segment_size: a.num("seg", 50usize),
+        min_match: a.num("mm", 15usize),
+        threads: a.num("threads", 3usize),
+        queue_capacity: 2usize << 30,
+        fallback_frac: 0.0,
+        pack_size: PACK,
+    };
+    let res = util::catch(AssertUnwindSafe(|| create_like_cli(&co)));
+    match res {
+        Ok(Ok(())) => {}
+        Ok(Err(e)) => bail!("create failed: {:#}", e),
+        Err(p) => bail!("create panicked: {}", p),
+    }
+    let info = Info::measure(&out)?;
+    println!("{}", json!({"agc": out, "n_samples": samples.len(), "with_extra_contigs": extra.len(), "measured": info.counts()}));
+    Ok(())
+}
+
+// ------------------------------------------------------------------------------------------------
+// the archive abstraction
+// ------------------------------------------------------------------------------------------------
+pub struct Info {
+    agc: String,
+    samples: Vec<String>,
+    batches: Vec<Vec<String>>,
+    contigs: BTreeMap<String, Vec<String>>,
+    segs: BTreeMap<String, BTreeMap<String, Vec<SegmentDesc>>>,
+    refkind: BTreeMap<u32, &'static str>,
+    k: usize,
+}
+
+impl Info {
+    fn measure(agc: &str) -> Result<Info> {
+        let d = open(agc)?;
+        let samples = d.list_samples();
+        let k = d.kmer_length as usize;
+        let mut contigs = BTreeMap::new();
+        let mut segs = BTreeMap::new();
+        let mut groups: BTreeSet<u32> = BTreeSet::new();
+        for s in &samples {
+            // one fresh handle per sample: the abstraction itself must not depend on history
+            let mut f = open(agc)?;
+            let cs = f.list_contigs(s)?;
+            let mut m = BTreeMap::new();
+            for c in &cs {
+                let sd = f.get_contig_segments_desc(s, c)?;
+                for x in &sd {
+                    groups.insert(x.group_id);
+                }
+                m.insert(c.clone(), sd);
+            }
+            contigs.insert(s.clone(), cs);
+            segs.insert(s.clone(), m);
+        }
+        // independent lexer: number of metadata batches, metadata of every reference part
+        let view = lex::parse_archive(agc)?;
+        let nb = view.stream("collection-contigs").map(|s| s.parts.len()).ok_or_else(|| anyhow!("no collection-contigs stream"))?;
+        let batches: Vec<Vec<String>> = samples.chunks(PACK).map(|c| c.to_vec()).collect();
+        if batches.len() != nb {
+            bail!("abstraction: {} samples give {} batches of {} but the archive has {} contig batches", samples.len(), batches.len(), PACK, nb);
+        }
+        let ver = ragc_common::AGC_FILE_MAJOR * 1000 + ragc_common::AGC_FILE_MINOR;
+        let mut refkind = BTreeMap::new();
+        for &g in &groups {
+            let kind = if g < NO_RAW_GROUPS {
+                "none"
+            } else {
+                match view.stream(&ragc_common::stream_ref_name(ver, g)) {
+                    Some(st) if !st.parts.is_empty() => {
+                        if st.parts[0].meta == 0 {
+                            "raw"
+                        } else {
+                            "zstd"
+                        }
+                    }
+                    _ => "none",
+                }
+            };
+            refkind.insert(g, kind);
+        }
+        Ok(Info { agc: agc.to_string(), samples, batches, contigs, segs, refkind, k })
+    }
+
+    fn counts(&self) -> Value {
+        let lz: Vec<_> = self.refkind.iter().filter(|(g, _)| **g >= NO_RAW_GROUPS).collect();
+        json!({
+            "samples": self.samples.len(),
+            "batches": self.batches.len(),
+            "contigs": self.contigs.values().map(|v| v.len()).sum::<usize>(),
+            "segments": self.segs.values().map(|m| m.values().map(|v| v.len()).sum::<usize>()).sum::<usize>(),
+            "lz_groups": lz.len(),
+            "raw_groups": self.refkind.keys().filter(|g| **g < NO_RAW_GROUPS).count(),
+            "ref_parts_stored_raw": lz.iter().filter(|(_, k)| **k == "raw").count(),
+            "ref_parts_zstd": lz.iter().filter(|(_, k)| **k == "zstd").count(),
+            "lz_groups_without_ref_stream": lz.iter().filter(|(_, k)| **k == "none").count(),
+            "k": self.k,
+        })
+    }
+
+    fn batch_of(&self, s: &str) -> Option<usize> {
+        self.samples.iter().position(|x| x == s).map(|i| i / PACK)
+    }
+
+    fn groups_of(&self, s: &str, c: &str) -> Vec<u32> {
+        self.segs.get(s).and_then(|m| m.get(c)).map(|v| v.iter().map(|x| x.group_id).collect()).unwrap_or_default()
+    }
+
+    /// contribution of segment i to the contig: raw_length (i = 0) or raw_length - k
+    fn contrib(&self, sd: &[SegmentDesc], i: usize) -> usize {
+        let l = sd[i].raw_length as usize;
+        if i == 0 {
+            l
+        } else {
+            l.saturating_sub(self.k)
+        }
+    }
+
+    fn contig_len(&self, s: &str, c: &str) -> usize {
+        self.segs.get(s).and_then(|m| m.get(c)).map(|sd| (0..sd.len()).map(|i| self.contrib(sd, i)).sum()).unwrap_or(0)
+    }
+
+    fn header(&self) -> Map<String, Value> {
+        let mut h = Map::new();
+        h.insert("batches".into(), json!(self.batches));
+        h.insert("contigs".into(), json!(self.contigs));
+        let mut sg = Map::new();
+        for (s, m) in &self.segs {
+            let mut o = Map::new();
+            for (c, sd) in m {
+                o.insert(c.clone(), json!(sd.iter().map(|x| gname(x.group_id)).collect::<Vec<_>>()));
+            }
+            sg.insert(s.clone(), Value::Object(o));
+        }
+        h.insert("seggroups".into(), Value::Object(sg));
+        let mut rk = Map::new();
+        for (g, k) in &self.refkind {
+            rk.insert(gname(*g), json!(k));
+        }
+        h.insert("refkind".into(), Value::Object(rk));
+        h
+    }
+}
+
+fn gname(g: u32) -> String {
+    format!("g{}", g)
+}
+
+fn cmd_info(a: &Args) -> Result<()> {
+    let info = Info::measure(a.get("agc")?)?;
+    let mut h = info.header();
+    h.insert("measured".into(), info.counts());
+    println!("{}", Value::Object(h));
+    Ok(())
+}
+
+// ------------------------------------------------------------------------------------------------
+// concrete calls, execution, digests
+// ------------------------------------------------------------------------------------------------
+#[derive(Clone, Debug)]
+struct COp {
+    op: String,
+    s: String,
+    c: String,
+    r: String, // range kind (abstract); a, b are the concrete positions
+    a: usize,
+    b: usize,
+    g: u32,
+    p: String,
+}
+
+impl COp {
+    fn new(op: &str) -> COp {
+        COp { op: op.to_string(), s: String::new(), c: String::new(), r: String::new(), a: 0, b: 0, g: 0, p: String::new() }
+    }
+    fn key(&self) -> String {
+        match self.op.as_str() {
+            "get_contig_range" => format!("{}|{}|{}|{}|{}", self.op, self.s, self.c, self.a, self.b),
+            "get_reference_segment" => format!("{}|{}", self.op, self.g),
+            "list_samples_with_prefix" | "get_samples_by_prefix" => format!("{}|{}", self.op, self.p),
+            "list_contigs" | "get_sample" => format!("{}|{}", self.op, self.s),
+            "get_contig" | "get_contig_length" | "get_contig_segments_desc" => format!("{}|{}|{}", self.op, self.s, self.c),
+            _ => self.op.clone(),
+        }
+    }
+    /// the operation record of the specification (Reader.tla: O(op, s, c, r, g, p))
+    fn model(&self) -> Value {
+        json!({"op": self.op, "s": self.s, "c": self.c, "r": self.r,
+               "g": if self.op == "get_reference_segment" { gname(self.g) } else { String::new() }, "p": self.p})
+    }
+}
+
+struct Ser(Vec<u8>);
+impl Ser {
+    fn n(&mut self, x: u64) {
+        self.0.extend_from_slice(&x.to_le_bytes());
+    }
+    fn bytes(&mut self, b: &[u8]) {
+        self.n(b.len() as u64);
+        self.0.extend_from_slice(b);
+    }
+    fn descs(&mut self, sd: &[SegmentDesc]) {
+        self.n(sd.len() as u64);
+        for x in sd {
+            self.n(x.group_id as u64);
+            self.n(x.in_group_id as u64);
+            self.n(x.is_rev_comp as u64);
+            self.n(x.raw_length as u64);
+        }
+    }
+    fn sample(&mut self, cs: &[(String, Vec<u8>)]) {
+        self.n(cs.len() as u64);
+        for (n, q) in cs {
+            self.bytes(n.as_bytes());
+            self.bytes(q);
+        }
+    }
+    fn digest(self) -> String {
+        util::sha256_hex(&self.0)[..16].to_string()
+    }
+}
+
+#[derive(Clone, Debug, PartialEq)]
+struct Res {
+    cls: &'static str,
+    dig: String,
+    msg: String,
+}
+
+/// One call on a real handle. The answer is projected to (class, digest of a canonical serialisation); the text
+/// of an error is incidental and not part of the projection.
+fn exec(d: &mut Decompressor, o: &COp) -> Res {
+    let r: std::result::Result<Result<String>, String> = util::catch(AssertUnwindSafe(|| -> Result<String> {
+        let mut z = Ser(Vec::new());
+        match o.op.as_str() {
+            "list_samples" => {
+                let v = d.list_samples();
+                z.n(v.len() as u64);
+                for s in &v {
+                    z.bytes(s.as_bytes());
+                }
+            }
+            "list_samples_with_prefix" => {
+                let v = d.list_samples_with_prefix(&o.p);
+                z.n(v.len() as u64);
+                for s in &v {
+                    z.bytes(s.as_bytes());
+                }
+            }
+            "get_compression_stats" => {
+                let v = d.get_compression_stats();
+                z.n(v.len() as u64);
+                for (n, a, b, c) in &v {
+                    z.bytes(n.as_bytes());
+                    z.n(*a);
+                    z.n(*b);
+                    z.n(*c as u64);
+                }
+            }
+            "list_contigs" => {
+                let v = d.list_contigs(&o.s)?;
+                z.n(v.len() as u64);
+                for s in &v {
+                    z.bytes(s.as_bytes());
+                }
+            }
+            "get_contig_length" => z.n(d.get_contig_length(&o.s, &o.c)? as u64),
+            "get_contig_segments_desc" => z.descs(&d.get_contig_segments_desc(&o.s, &o.c)?),
+            "get_contig" => z.bytes(&d.get_contig(&o.s, &o.c)?),
+            "get_contig_range" => z.bytes(&d.get_contig_range(&o.s, &o.c, o.a, o.b)?),
+            "get_sample" => z.sample(&d.get_sample(&o.s)?),
+            "get_samples_by_prefix" => {
+                let m = d.get_samples_by_prefix(&o.p)?;
+                let m: BTreeMap<_, _> = m.into_iter().collect();
+                z.n(m.len() as u64);
+                for (n, cs) in &m {
+                    z.bytes(n.as_bytes());
+                    z.sample(cs);
+                }
+            }
+            "get_all_segments" => {
+                let v = d.get_all_segments()?;
+                z.n(v.len() as u64);
+                for (s, c, sd) in &v {
+                    z.bytes(s.as_bytes());
+                    z.bytes(c.as_bytes());
+                    z.descs(sd);
+                }
+            }
+            "get_group_statistics" => {
+                let v = d.get_group_statistics()?;
+                z.n(v.len() as u64);
+                for (g, a, b, c) in &v {
+                    z.n(*g as u64);
+                    z.n(*a as u64);
+                    z.n(*b as u64);
+                    z.n(*c as u64);
+                }
+            }
+            "get_reference_segment" => z.bytes(&d.get_reference_segment(o.g)?),
+            other => bail!("harness: unknown op {}", other),
+        }
+        Ok(z.digest())
+    }));
+    match r {
+        Ok(Ok(dig)) => Res { cls: "ok", dig, msg: String::new() },
+        Ok(Err(e)) => Res { cls: "err", dig: "-".to_string(), msg: format!("{:#}", e) },
+        Err(p) => Res { cls: "panic", dig: "-".to_string(), msg: p },
+    }
+}
+
+fn exec_fresh(agc: &str, o: &COp) -> Result<Res> {
+    let mut d = open(agc)?;
+    Ok(exec(&mut d, o))
+}
+
+// ------------------------------------------------------------------------------------------------
+// REPLAY
+// ------------------------------------------------------------------------------------------------
+/// Concrete names for the abstract arguments of MC_Reader (sA sB sX / cK cX / gRaw gZ gLow gUnk / pB pAll pNone /
+/// head all empty beyond), chosen (seeded) so that the abstraction's facts hold in the real archive:
+/// sA in batch 1 and sB in a later batch; contig cK of sA touches gRaw (reference stored raw) and gZ (reference
+/// compressed); sA has a raw-group segment (gLow); pB matches sB only, pAll matches sA, sB and a few more (samples of
+/// every batch), pNone nothing; "head" = a range inside one segment (of group gRaw for sA).
+struct Binding {
+    sa: String,
+    sb: String,
+    ck: BTreeMap<String, String>,
+    graw: u32,
+    gz: u32,
+    glow: u32,
+    gunk: u32,
+    pall: String,
+    sx: String,
+    cx: String,
+    pnone: String,
+}
+
+fn choose_binding(info: &Info, rng: &mut StdRng) -> Result<Binding> {
+    let sx = "no_such_sample".to_string();
+    let cx = "no_such_contig".to_string();
+    let pnone = "zz_no_such".to_string();
+    if info.samples.contains(&sx) || info.batches.len() < 2 {
+        bail!("abstraction: archive needs >= 2 metadata batches");
+    }
+    // (sample, contig, raw-stored reference groups, compressed reference groups) candidates for sA
+    let mut cand_a = vec![];
+    for s in &info.batches[0] {
+        let has_low = info.segs[s].values().any(|sd| sd.iter().any(|x| x.group_id < NO_RAW_GROUPS));
+        if !has_low {
+            continue;
+        }
+        for c in &info.contigs[s] {
+            let sd = &info.segs[s][c];
+            // the "head" range needs a gRaw segment that contributes at least one base
+            let raws: Vec<u32> = (0..sd.len()).filter(|&i| info.refkind.get(&sd[i].group_id) == Some(&"raw") && info.contrib(sd, i) >= 1).map(|i| sd[i].group_id).collect();
+            let zs: Vec<u32> = sd.iter().map(|x| x.group_id).filter(|g| info.refkind.get(g) == Some(&"zstd")).collect();
+            if !raws.is_empty() && !zs.is_empty() {
+                cand_a.push((s.clone(), c.clone(), raws, zs));
+            }
+        }
+    }
+    cand_a.shuffle(rng);
+    for (sa, ca, raws, zs) in cand_a {
+        // pAll: the longest proper prefix of sA's name that also matches a sample of a later batch (and few samples)
+        let mut found = None;
+        for plen in (1..sa.len()).rev() {
+            let p = &sa[..plen];
+            let m: Vec<&String> = info.samples.iter().filter(|s| s.starts_with(p)).collect();
+            let later: Vec<&String> = m.iter().copied().filter(|s| info.batch_of(s).unwrap_or(0) >= 1).collect();
+            if !later.is_empty() {
+                if m.len() <= 12 {
+                    found = Some((p.to_string(), (*later.choose(rng).unwrap()).clone()));
+                }
+                break;
+            }
+        }
+        let (pall, sb) = match found {
+            Some(x) => x,
+            None => continue,
+        };
+        if info.samples.iter().filter(|s| s.starts_with(sb.as_str())).count() != 1 || info.contigs[&sb].is_empty() {
+            continue;
+        }
+        let cb = info.contigs[&sb].choose(rng).unwrap().clone();
+        if info.contig_len(&sb, &cb) < 1 {
+            continue;
+        }
+        let graw = *raws.choose(rng).unwrap();
+        let gz = *zs.choose(rng).unwrap();
+        let lows: Vec<u32> = info.segs[&sa].values().flatten().map(|x| x.group_id).filter(|g| *g < NO_RAW_GROUPS).collect();
+        let glow = *lows.choose(rng).unwrap();
+        let gunk = info.refkind.keys().max().copied().unwrap_or(0) + 1000 + rng.gen_range(0..1000u32);
+        let mut ck = BTreeMap::new();
+        ck.insert(sa.clone(), ca.clone());
+        ck.insert(sb.clone(), cb.clone());
+        ck.insert(sx.clone(), ca.clone());
+        return Ok(Binding { sa, sb, ck, graw, gz, glow, gunk, pall, sx, cx, pnone });
+    }
+    bail!("abstraction: no (sA, sB, cK, gRaw, gZ, pAll) with the required facts in this archive")
+}
+
+impl Binding {
+    fn concrete(&self, info: &Info, m: &Value) -> Result<COp> {
+        let f = |k: &str| m[k].as_str().unwrap_or("").to_string();
+        let mut o = COp::new(&f("op"));
+        let s_abs = f("s");
+        let c_abs = f("c");
+        o.s = match s_abs.as_str() {
+            "sA" => self.sa.clone(),
+            "sB" => self.sb.clone(),
+            "sX" => self.sx.clone(),
+            "" => String::new(),
+            x => bail!("abstract sample {}", x),
+        };
+        o.c = match c_abs.as_str() {
+            "cK" => self.ck[&o.s].clone(),
+            "cX" => self.cx.clone(),
+            "" => String::new(),
+            x => bail!("abstract contig {}", x),
+        };
+        o.g = match f("g").as_str() {
+            "gRaw" => self.graw,
+            "gZ" => self.gz,
+            "gLow" => self.glow,
+            "gUnk" => self.gunk,
+            "" => 0,
+            x => bail!("abstract group {}", x),
+        };
+        o.p = match f("p").as_str() {
+            "pB" => self.sb.clone(),
+            "pAll" => self.pall.clone(),
+            "pNone" => self.pnone.clone(),
+            "" => String::new(),
+            x => bail!("abstract prefix {}", x),
+        };
+        o.r = f("r");
+        if o.op == "get_contig_range" {
+            let known = info.segs.get(&o.s).map(|mm| mm.contains_key(&o.c)).unwrap_or(false);
+            let len = info.contig_len(&o.s, &o.c);
+            let (a, b) = match o.r.as_str() {
+                // a range inside ONE segment of group gRaw (the abstraction's "first segment")
+                "head" if known => {
+                    let sd = &info.segs[&o.s][&o.c];
+                    let i = (0..sd.len())
+                        .find(|&i| sd[i].group_id == self.graw && info.contrib(sd, i) >= 1)
+                        .or_else(|| (0..sd.len()).find(|&i| info.contrib(sd, i) >= 1))
+                        .ok_or_else(|| anyhow!("no contributing segment"))?;
+                    let off: usize = (0..i).map(|j| info.contrib(sd, j)).sum();
+                    (off, off + info.contrib(sd, i).min(5))
+                }
+                "head" => (0, 5),
+                "all" => (0, len + 7),
+                "empty" => (7, 3),
+                "beyond" => (len + 2, len + 9),
+                x => bail!("abstract range {}", x),
+            };
+            o.a = a;
+            o.b = b;
+        }
+        Ok(o)
+    }
+    fn json(&self) -> Value {
+        json!({"sA": self.sa, "sB": self.sb, "sX": self.sx, "cK": self.ck, "cX": self.cx, "gRaw": self.graw, "gZ": self.gz,
+               "gLow": self.glow, "gUnk": self.gunk, "pB": self.sb, "pAll": self.pall, "pNone": self.pnone})
+    }
+}
+
+fn names_unknown(m: &Value) -> bool {
+    let op = m["op"].as_str().unwrap_or("");
+    let per_sample = ["list_contigs", "get_sample"].contains(&op);
+    let per_contig = ["get_contig", "get_contig_range", "get_contig_length", "get_contig_segments_desc"].contains(&op);
+    (per_sample || per_contig) && m["s"] == "sX" || per_contig && m["c"] == "cX"
+}
+
+const CLS: [&str; 3] = ["ok", "err", "panic"];
+
+fn cmd_replay(a: &Args) -> Result<()> {
+    util::install_panic_hook();
+    let agc = a.get("agc")?.to_string();
+    let info = Info::measure(&agc)?;
+    let mut rng = util::rng(a.num("seed", 1u64));
+    let bind = choose_binding(&info, &mut rng)?;
+    let f = std::io::BufReader::new(std::fs::File::open(a.get("in")?)?);
+    let mut lines = f.lines();
+    let first: Value = serde_json::from_str(&lines.next().ok_or_else(|| anyhow!("empty replay file"))??)?;
+    let alphabet: Vec<Value> = first["alphabet"].as_array().ok_or_else(|| anyhow!("first line must be {{\"alphabet\":[..]}}"))?.clone();
+    let ops: Vec<COp> = alphabet.iter().map(|m| bind.concrete(&info, m)).collect::<Result<_>>()?;
+    let is_clone: Vec<bool> = ops.iter().map(|o| o.op == "clone_for_thread").collect();
+    // the fresh-handle table, computed once
+    let mut fresh: Vec<Res> = vec![];
+    for (i, o) in ops.iter().enumerate() {
+        fresh.push(if is_clone[i] { Res { cls: "ok", dig: "clone".into(), msg: String::new() } } else { exec_fresh(&agc, o)? });
+    }
+    // behaviours: [[index(1-based), class code, flags], ...]
+    let mut behs: Vec<Vec<(usize, usize, u64)>> = vec![];
+    for l in lines {
+        let l = l?;
+        if l.trim().is_empty() {
+            continue;
+        }
+        let v: Value = serde_json::from_str(&l)?;
+        let b = v.as_array().ok_or_else(|| anyhow!("behaviour must be an array"))?
+            .iter()
+            .map(|st| (st[0].as_u64().unwrap() as usize - 1, st[1].as_u64().unwrap() as usize, st[2].as_u64().unwrap()))
+            .collect();
+        behs.push(b);
+    }
+    let mut fails: Vec<Value> = vec![];
+    let mut abstraction: Vec<Value> = vec![];
+    // the model's class on a fresh handle (first steps) against the real fresh class
+    let mut model_fresh: Vec<Option<usize>> = vec![None; ops.len()];
+    for b in &behs {
+        if let Some(&(i, c, _)) = b.first() {
+            model_fresh[i] = Some(c);
+        }
+    }
+    for i in 0..ops.len() {
+        let fr = &fresh[i];
+        if fr.cls == "panic" {
+            fails.push(json!({"kind": "panic", "where": "fresh handle", "op": ops[i].key(), "abstract": alphabet[i], "msg": fr.msg}));
+        } else if let Some(c) = model_fresh[i] {
+            if CLS[c] != fr.cls {
+                let e = json!({"kind": "unknown_not_error", "where": "fresh handle", "op": ops[i].key(), "abstract": alphabet[i], "model": CLS[c], "got": fr.cls, "msg": fr.msg});
+                if names_unknown(&alphabet[i]) {
+                    fails.push(e);
+                } else {
+                    abstraction.push(e);
+                }
+            }
+        }
+    }
+    let pool = rayon::ThreadPoolBuilder::new().num_threads(a.num("threads", 8usize)).build()?;
+    let found: Vec<Value> = pool.install(|| {
+        behs.par_iter()
+            .enumerate()
+            .filter_map(|(bi, b)| {
+                let mut d = match open(&agc) {
+                    Ok(d) => d,
+                    Err(e) => return Some(json!({"kind": "open_failed", "beh": bi, "msg": format!("{:#}", e)})),
+                };
+                for (j, &(i, mc, flags)) in b.iter().enumerate() {
+                    let seq = || b[..=j].iter().map(|x| ops[x.0].key()).collect::<Vec<_>>();
+                    if is_clone[i] {
+                        let r = util::catch(AssertUnwindSafe(|| d.clone_for_thread()));
+                        match r {
+                            Ok(Ok(d2)) => d = d2,
+                            Ok(Err(e)) => return Some(json!({"kind": "class_vs_fresh", "beh": bi, "step": j, "seq": seq(), "op": "clone_for_thread", "got": "err", "fresh": "ok", "msg": format!("{:#}", e)})),
+                            Err(p) => return Some(json!({"kind": "panic", "beh": bi, "step": j, "seq": seq(), "op": "clone_for_thread", "msg": p})),
+                        }
+                        continue;
+                    }
+                    let r = exec(&mut d, &ops[i]);
+                    let fr = &fresh[i];
+                    let kind = if r.cls == "panic" {
+                        "panic"
+                    } else if r.cls != fr.cls {
+                        "class_vs_fresh"
+                    } else if r.dig != fr.dig {
+                        "digest_vs_fresh"
+                    } else if r.cls != CLS[mc] {
+                        "class_vs_model"
+                    } else {
+                        continue;
+                    };
+                    return Some(json!({"kind": kind, "beh": bi, "step": j, "seq": seq(), "op": ops[i].key(), "abstract": alphabet[i],
+                        "got": {"cls": r.cls, "dig": r.dig}, "fresh": {"cls": fr.cls, "dig": fr.dig}, "model": CLS[mc], "flags": flags, "msg": r.msg}));
+                }
+                None
+            })
+            .collect()
+    });
+    let steps: usize = behs.iter().map(|b| b.len()).sum();
+    let nfail_beh = found.len();
+    // distinct failure shapes first (kind + failing op + length), capped
+    let mut seen: BTreeSet<String> = BTreeSet::new();
+    let mut sorted = found;
+    sorted.sort_by_key(|f| (f["step"].as_u64().unwrap_or(0), f["beh"].as_u64().unwrap_or(0)));
+    for f in sorted {
+        let sig = format!("{}|{}|{}", f["kind"], f["op"], f["step"]);
+        if seen.insert(sig) && fails.len() < 40 {
+            fails.push(f);
+        }
+    }
+    let mut table = Map::new();
+    for (i, o) in ops.iter().enumerate() {
+        table.insert(o.key(), json!({"cls": fresh[i].cls, "dig": fresh[i].dig}));
+    }
+    println!("{}", json!({"behaviours": behs.len(), "steps": steps, "fails": fails, "failed_behaviours": nfail_beh + 0,
+        "abstraction": abstraction, "binding": bind.json(), "fresh": table, "measured": info.counts()}));
+    Ok(())
+}
+
+// ------------------------------------------------------------------------------------------------
+// TRACE
+// ------------------------------------------------------------------------------------------------
+/// The universe of concrete calls of one trace file (seeded): samples of every batch, all their contigs, unknown
+/// names of several shapes, a contig of another sample, reference segments of LZ groups with raw / compressed
+/// references, raw groups, unknown groups, prefixes, ranges of the four kinds with random positions.
+fn universe(info: &Info, rng: &mut StdRng) -> (Vec<COp>, BTreeMap<String, Vec<String>>) {
+    let mut ops: Vec<COp> = vec![];
+    let mut samples: Vec<String> = vec![];
+    for b in &info.batches {
+        let mut v = b.clone();
+        v.shuffle(rng);
+        samples.extend(v.into_iter().take(3));
+    }
+    // samples that carry the added short / orphan contigs (raw groups)
+    for s in &info.samples {
+        if info.segs[s].values().flatten().any(|x| x.group_id < NO_RAW_GROUPS) && !samples.contains(s) && rng.gen_bool(0.4) {
+            samples.push(s.clone());
+        }
+    }
+    let first = info.samples[0].clone();
+    let unknown_s = vec!["no_such_sample".to_string(), first[..first.len() - 1].to_string(), format!("{}x", info.samples[info.samples.len() - 1])];
+    let unknown_s: Vec<String> = unknown_s.into_iter().filter(|s| !info.samples.contains(s) && !s.is_empty()).collect();
+    for name in ["list_samples", "get_compression_stats", "get_all_segments", "get_group_statistics"] {
+        ops.push(COp::new(name));
+    }
+    let mut all_s = samples.clone();
+    all_s.extend(unknown_s.iter().cloned());
+    let some_contig = info.contigs[&samples[0]][0].clone();
+    for s in &all_s {
+        for name in ["list_contigs", "get_sample"] {
+            let mut o = COp::new(name);
+            o.s = s.clone();
+            ops.push(o);
+        }
+        let mut cs: Vec<String> = info.contigs.get(s).cloned().unwrap_or_else(|| vec![some_contig.clone()]);
+        cs.push("no_such_contig".to_string());
+        // a contig name that exists in the archive but not in this sample
+        if let Some(other) = info.contigs.values().flatten().find(|c| !cs.contains(c)) {
+            cs.push(other.clone());
+        }
+        for c in &cs {
+            for name in ["get_contig", "get_contig_length", "get_contig_segments_desc"] {
+                let mut o = COp::new(name);
+                o.s = s.clone();
+                o.c = c.clone();
+                ops.push(o);
+            }
+            let known = info.segs.get(s).map(|m| m.contains_key(c)).unwrap_or(false);
+            let len = info.contig_len(s, c);
+            let first_len = if known && !info.segs[s][c].is_empty() { info.contrib(&info.segs[s][c], 0) } else { 0 };
+            for kind in ["head", "all", "empty", "beyond"] {
+                let (a, b) = match kind {
+                    "head" => {
+                        if known && first_len == 0 {
+                            continue;
+                        }
+                        let fl = if known { first_len } else { 20 };
+                        let b = rng.gen_range(1..=fl);
+                        (rng.gen_range(0..b), b)
+                    }
+                    "all" => (0, len + [0usize, 1, 1000, usize::MAX - len][rng.gen_range(0..4)]),
+                    "empty" => {
+                        let a = rng.gen_range(0..len + 3);
+                        (a, rng.gen_range(0..=a))
+                    }
+                    _ => {
+                        let a = len + rng.gen_range(0..4usize);
+                        (a, a + rng.gen_range(1..9usize))
+                    }
+                };
+                let mut o = COp::new("get_contig_range");
+                o.s = s.clone();
+                o.c = c.clone();
+                o.r = kind.to_string();
+                o.a = a;
+                o.b = b;
+                ops.push(o);
+            }
+        }
+    }
+    // groups: those of the chosen samples' contigs (LZ with raw / compressed reference, raw groups) + unknown ones
+    let mut gs: BTreeSet<u32> = BTreeSet::new();
+    for s in &samples {
+        for sd in info.segs[s].values() {
+            for x in sd {
+                if gs.len() < 24 || rng.gen_bool(0.1) {
+                    gs.insert(x.group_id);
+                }
+            }
+        }
+    }
+    for k in ["raw", "zstd", "none"] {
+        if let Some((g, _)) = info.refkind.iter().find(|(_, kk)| **kk == k) {
+            gs.insert(*g);
+        }
+    }
+    let gmax = info.refkind.keys().max().copied().unwrap_or(16);
+    for g in [gmax + 1, gmax + 5000, 0u32, 15, u32::MAX] {
+        gs.insert(g);
+    }
+    for g in gs {
+        let mut o = COp::new("get_reference_segment");
+        o.g = g;
+        ops.push(o);
+    }
+    // prefixes
+    let mut pall = first.clone();
+    for s in &info.samples {
+        while !s.starts_with(&pall) {
+            pall.pop();
+        }
+    }
+    let last = info.samples[info.samples.len() - 1].clone();
+    let mut ps: BTreeSet<String> = BTreeSet::new();
+    for p in [pall.clone(), first.clone(), last.clone(), last[..last.len() - 1].to_string(), first[..first.len() - 1].to_string(), "zz_no_such".to_string(), format!("{}x", first)] {
+        if !p.is_empty() {
+            ps.insert(p);
+        }
+    }
+    let mut prefixes = BTreeMap::new();
+    for p in &ps {
+        prefixes.insert(p.clone(), info.samples.iter().filter(|s| s.starts_with(p.as_str())).cloned().collect::<Vec<_>>());
+        let n = prefixes[p].len();
+        for name in ["list_samples_with_prefix", "get_samples_by_prefix"] {
+            if name == "get_samples_by_prefix" && n > 12 && *p != pall {
+                continue;
+            }
+            let mut o = COp::new(name);
+            o.p = p.clone();
+            ops.push(o);
+        }
+    }
+    // one entry per key
+    let mut seen = BTreeSet::new();
+    ops.retain(|o| seen.insert(o.key()));
+    (ops, prefixes)
+}
+
+fn cmd_trace(a: &Args) -> Result<()> {
+    util::install_panic_hook();
+    let agc = a.get("agc")?.to_string();
+    let seed = a.num("seed", 1u64);
+    let ncases = a.num("cases", 4usize);
+    let nops = a.num("ops", 30usize);
+    let tmax = a.num("threads-max", 8usize).clamp(2, 8);
+    let info = Info::measure(&agc)?;
+    let mut rng = util::rng(seed);
+    let (ops, prefixes) = universe(&info, &mut rng);
+    let ops = Arc::new(ops);
+    // the stateless table: every call of the universe on its own fresh handle
+    let mut table = Map::new();
+    for o in ops.iter() {
+        let r = exec_fresh(&agc, o)?;
+        table.insert(o.key(), json!({"cls": r.cls, "dig": r.dig, "msg": r.msg}));
+    }
+    let mut out = std::io::BufWriter::new(std::fs::File::create(a.get("out")?)?);
+    let mut hdr = info.header();
+    hdr.insert("ev".into(), json!("hdr"));
+    hdr.insert("agc".into(), json!(agc));
+    hdr.insert("prefixes".into(), json!(prefixes));
+    hdr.insert("table".into(), Value::Object(table));
+    hdr.insert("measured".into(), info.counts());
+    writeln!(out, "{}", Value::Object(hdr))?;
+    // indices of calls that (re)load the catalogue / use the cache, to bias the random sequences towards the
+    // histories that matter (a miss after a hit, a full-table call after a per-sample call, reference before/after a fill)
+    let idx = |f: &dyn Fn(&COp) -> bool| -> Vec<usize> { (0..ops.len()).filter(|&i| f(&ops[i])).collect() };
+    let misses = idx(&|o| !o.s.is_empty() && !info.samples.contains(&o.s));
+    let tables = idx(&|o| o.op == "get_all_segments" || o.op == "get_group_statistics");
+    let refs = idx(&|o| o.op == "get_reference_segment");
+    let fills = idx(&|o| ["get_contig", "get_sample", "get_contig_range"].contains(&o.op.as_str()) && info.samples.contains(&o.s));
+    for case in 0..ncases {
+        let nthreads = 2 + (case + seed as usize) % (tmax - 1);
+        writeln!(out, "{}", json!({"ev": "start", "case": case, "threads": nthreads}))?;
+        let events: Arc<Mutex<Vec<Value>>> = Arc::new(Mutex::new(vec![]));
+        let plan = |n: usize, rng: &mut StdRng| -> Vec<usize> {
+            (0..n)
+                .map(|_| {
+                    let pools: [&Vec<usize>; 4] = [&misses, &tables, &refs, &fills];
+                    let x: f64 = rng.gen();
+                    if x < 0.45 {
+                        let p = pools[rng.gen_range(0..4)];
+                        if !p.is_empty() {
+                            return p[rng.gen_range(0..p.len())];
+                        }
+                    }
+                    rng.gen_range(0..ops.len())
+                })
+                .collect()
+        };
+        let run = |t: usize, d: &mut Decompressor, seq: &[usize], ops: &Vec<COp>, events: &Mutex<Vec<Value>>| {
+            for &i in seq {
+                let o = &ops[i];
+                let r = exec(d, o);
+                let e = json!({"ev": "op", "t": t, "op": o.model(), "key": o.key(), "cls": r.cls, "dig": r.dig, "msg": r.msg});
+                events.lock().unwrap().push(e);
+            }
+        };
+        // the parent handle (t = 0) has a history before it is cloned
+        let mut parent = open(&agc)?;
+        let pre = plan(rng.gen_range(0..6), &mut rng);
+        run(0, &mut parent, &pre, &ops, &events);
+        let mut clones = vec![];
+        for t in 1..=nthreads {
+            let c = util::catch(AssertUnwindSafe(|| parent.clone_for_thread()));
+            match c {
+                Ok(Ok(d)) => {
+                    events.lock().unwrap().push(json!({"ev": "clone", "from": 0, "t": t, "cls": "ok"}));
+                    clones.push((t, d));
+                }
+                Ok(Err(e)) => events.lock().unwrap().push(json!({"ev": "clone", "from": 0, "t": t, "cls": "err", "msg": format!("{:#}", e)})),
+                Err(p) => events.lock().unwrap().push(json!({"ev": "clone", "from": 0, "t": t, "cls": "panic", "msg": p})),
+            }
+        }
+        let barrier = Arc::new(Barrier::new(clones.len() + 1));
+        let mut hs = vec![];
+        for (t, mut d) in clones {
+            let seq = plan(nops, &mut rng);
+            let (ops, events, barrier) = (ops.clone(), events.clone(), barrier.clone());
+            hs.push(std::thread::spawn(move || {
+                util::install_panic_hook();
+                barrier.wait();
+                for &i in &seq {
+                    let o = &ops[i];
+                    let r = exec(&mut d, o);
+                    let e = json!({"ev": "op", "t": t, "op": o.model(), "key": o.key(), "cls": r.cls, "dig": r.dig, "msg": r.msg});
+                    events.lock().unwrap().push(e);
+                }
+            }));
+        }
+        // the parent keeps working concurrently with its clones
+        let seq0 = plan(nops, &mut rng);
+        barrier.wait();
+        run(0, &mut parent, &seq0, &ops, &events);
+        for h in hs {
+            h.join().map_err(|_| anyhow!("reader thread died outside of a call"))?;
+        }
+        for e in events.lock().unwrap().iter() {
+            writeln!(out, "{}", e)?;
+        }
+    }
+    out.flush()?;
+    println!("{}", json!({"cases": ncases, "universe": ops.len(), "measured": info.counts()}));
+    Ok(())
 }
